@@ -253,6 +253,14 @@ def _const_sources(blocks, bo, n, ret_local):
                     c = _const_of(st[4])
             if c is not None:
                 out.append((i, c, t[3], "goto"))
+        elif t[2] == "drop":
+            # `return Err(..)` whose block ends by dropping a local (the constant is assigned, then scope exit starts)
+            c = None
+            for st in b["s"]:
+                if st[2] == "=" and st[3] == [ret_local, []]:
+                    c = _const_of(st[4])
+            if c is not None and not (t[3][0] == ret_local):
+                out.append((i, c, t[4], "drop"))
         elif t[2] == "call" and isinstance(t[3], dict) and str(t[3].get("d", "")).endswith("FromResidual::from_residual") and t[5] == [ret_local, []] and t[6] is not None:
             ty = str(t[3].get("self", ""))
             vn = "std::result::Result::Err" if "Result<" in ty else ("std::option::Option::None" if "Option<" in ty else None)
@@ -266,6 +274,8 @@ def _redirect(blocks, i, how, new_target):
     t = list(b["t"])
     if how == "goto":
         t[3] = new_target
+    elif how == "drop":
+        t[4] = new_target
     else:
         t[6] = new_target
     blocks[i] = {"c": b["c"], "s": list(b["s"]), "t": t}
